@@ -116,7 +116,37 @@ func (g *gen) par(n int) {
 	g.emit("par:" + strings.Join(ts, "|"))
 }
 
-var defectVariant = map[string]bool{"hdr4": true, "hdr6": true, "fam4": true, "fam6": true, "tl4": true}
+var defectVariant = map[string]bool{"hdr4": true, "hdr6": true, "fam4": true, "fam6": true, "tl4": true, "pl6": true}
+
+// a call whose request is answered while it is still inside its send (scripted WriteTo), or by a
+// goroutine started from WriteTo
+func (g *gen) beginAnswered() {
+	g.settle()
+	t, q := g.btok('g')
+	var ms int
+	fmt.Sscanf(t[strings.LastIndex(t, ".")+1:], "%d", &ms)
+	q.deadline = g.vt + ms
+	f := strings.Split(t, ".")
+	wantWake := g.rng.Chance(70)
+	if g.rng.Chance(30) { // asynchronous delivery right after WriteTo
+		g.emit("asy:" + t + "|" + g.ftok(q, wantWake))
+		g.vt += 2
+		return
+	}
+	g.emit("q" + f[0][1:] + "." + f[1] + "." + f[3])
+	for n := 1 + g.rng.Intn(2); n > 0; n-- {
+		g.emit(g.ftok(q, wantWake))
+		wantWake = g.rng.Bool()
+	}
+	if g.rng.Chance(20) { // the write fails after the reply was delivered
+		g.emit("z." + f[1] + ".F")
+		q.done = true
+		q.mode = 'w'
+	} else {
+		g.emit("z." + f[1] + ".T")
+	}
+	g.vt += 2
+}
 
 func (g *gen) pickVariant(matching bool) *variant {
 	for {
@@ -185,6 +215,8 @@ func genScenario(rng *lib.Rand, class string, nvar map[string]int) scenario {
 	for i := 0; i < steps; i++ {
 		x := rng.Intn(100)
 		switch {
+		case g.nextP < np && x < 9:
+			g.beginAnswered()
 		case g.nextP < np && x < 30:
 			mode := byte('g')
 			if class == "fail" && rng.Chance(50) {
@@ -253,6 +285,12 @@ func generate(r *lib.Run, rng *lib.Rand) []scenario {
 	}
 	nvar := map[string]int{}
 	var scs []scenario
+	// the identifier counter goes once around while call 0 waits: call 1 gets the same identifier
+	// (compared against the model through the compressed event x.65535 = BulkFail 65535)
+	scs = append(scs, scenario{next0: 40000, class: "wrap", toks: strings.Fields(
+		"b4.0.g.5000 s x.65535 s b6.1.g.5000 s f.rep4.0.0.3 s w.1 s w.0 s")})
+	scs = append(scs, scenario{next0: 65530, class: "wrap", toks: strings.Fields(
+		"b6.0.g.400 x.3 b4.1.g.400 x.20 s b4.2.g.400 s f.rep4.1.0.3 f.rep6.0.0.1 w.0 w.1 s f.rep4.2.0.9 w.2 s")})
 	for i := 0; i < n; i++ {
 		class := "timed"
 		switch x := rng.Intn(100); {
